@@ -203,6 +203,24 @@ Proof.
 Qed.
 Print Assumptions C13_rows_of_source.
 
+(* batch_run's result handling TRANSLATED (serial loop; parallel branch: whatever order imap_unordered delivers the runs'
+   results in - `order`, any permutation of the work list): with the translated RunId loop nest, for every design,
+   iterations, max_steps, period, number_processes and completion order the rows are a permutation of the union over
+   the runs of the rows of the model constructed with the run's kwargs and stepped by hand.  display_progress occurs only
+   in the tqdm(...) header whose handle is used for .update() alone (checked by the translator), so it cannot matter. *)
+Theorem C13_eq_by_hand_of_source : forall vals iterations max_steps period number_processes order,
+  Permutation order (gen_runs_list iterations (product vals)) ->
+  Permutation (gen_batch_results (run_rows max_steps period) number_processes (gen_runs_list iterations (product vals)) order)
+              (flat_map (rows_by_hand max_steps period) (gen_runs_list iterations (product vals))) /\
+  gen_batch_results (run_rows max_steps period) 1 (gen_runs_list iterations (product vals)) order
+  = batch_rows max_steps period (runs_list iterations (product vals)).
+Proof.
+  intros vals iterations max_steps period n order Hp. split.
+  - exact (results_eq_by_hand max_steps period n _ order Hp).
+  - rewrite batch_results_bridge, <- runs_list_bridge. reflexivity.
+Qed.
+Print Assumptions C13_eq_by_hand_of_source.
+
 (* non-vacuity: a 2 x 3 design with 2 iterations; a model that collects at construction and in step,
    stops at step 3, max_steps 5, period 2: rows for steps 0, 2 and the last collection 3 *)
 Example C13_example :
